@@ -5,7 +5,8 @@ import json
 import traceback
 
 import common
-from common import (Driver, Findings, Rng, Stopwatch, axiom_audit, grep_audit, lean_build,
+from common import (Driver, Findings, Rng, Stopwatch, axiom_audit, grep_audit, lean_build, leanchecker,
+                    tier_from_env,
                     property_theorems, report_violation, write_evidence)
 
 
@@ -102,6 +103,12 @@ def lean_stage(pid: str, extra_targets=()) -> dict:
     if hits:
         info["ok"] = False
         info["problems"].append("forbidden constructs: " + "; ".join(hits[:10]))
+    if tier_from_env() == "thorough":
+        cok, cout = leanchecker(module)
+        info["leanchecker"] = cout[:200] if cok else cout
+        if not cok:
+            info["ok"] = False
+            info["problems"].append("leanchecker rejected the compiled modules: " + cout)
     aok, axioms, out = axiom_audit(pid)
     info["axioms"] = axioms
     if not aok:
@@ -183,6 +190,8 @@ def decide(ctx: Ctx, lean: dict, level: str, search=None, coverage_extra: dict |
         "notes": ctx.notes,
         "explanation": _explanation(pid),
     }
+    if lean.get("leanchecker") is not None:
+        cov["leanchecker"] = lean["leanchecker"]
     if coverage_extra:
         cov.update(coverage_extra)
     write_evidence(pid, ctx.tier, ctx.seed, level, cov, ctx.watch.s(), violations, assumptions)
